@@ -240,7 +240,7 @@ type ATrace struct {
 // World is one case's universe: a network, three frameworks, interning tables, traces.
 type World struct {
 	net          *Net
-	A, B, M      *Agent
+	A, B, M, R   *Agent
 	in           *Intern
 	tr           map[string]*ATrace
 	inconclusive string
@@ -290,7 +290,7 @@ func (w *World) noCoq(why string) {
 }
 
 func (w *World) close() {
-	for _, a := range []*Agent{w.A, w.B, w.M} {
+	for _, a := range []*Agent{w.A, w.B, w.M, w.R} {
 		if a != nil {
 			a.Close()
 		}
@@ -309,8 +309,8 @@ func (w *World) agent(name string) *Agent {
 }
 
 func (w *World) agentAt(ep string) *Agent {
-	for _, a := range []*Agent{w.A, w.B, w.M} {
-		if a.Endpoint == ep {
+	for _, a := range []*Agent{w.A, w.B, w.M, w.R} {
+		if a != nil && a.Endpoint == ep {
 			return a
 		}
 	}
